@@ -130,7 +130,8 @@ def run_impl(ctx, exe, lines, per_case_timeout=60):
     while start < len(lines):
         chunk = lines[start:]
         t0 = ctx.elapsed()
-        r = ctx.run(exe, "\n".join(chunk) + "\n", timeout=max(per_case_timeout, 20 + 2 * len(chunk)))
+        r = ctx.run(exe, "\n".join(chunk) + "\n", timeout=max(per_case_timeout, 20 + 2 * len(chunk)),
+                    env={"OMP_NUM_THREADS": "2", "OMP_WAIT_POLICY": "passive"})
         TIMES["impl"] += ctx.elapsed() - t0
         cur = None
         for line in r.out.splitlines():
@@ -179,18 +180,36 @@ def run_impl(ctx, exe, lines, per_case_timeout=60):
 TIMES = {"model": 0.0, "impl": 0.0}
 
 
-def run_model(ctx, mexe, lines):
+def run_model(ctx, mexe, lines, workers=4):
+    """one output line per input line; the lines are independent, so they are spread over a few
+    processes (cost-balanced round robin) and the outputs put back in order"""
     if not lines:
         return []
     t0 = ctx.elapsed()
-    r = ctx.run(mexe, "\n".join(lines) + "\n", timeout=900)
+    order = sorted(range(len(lines)), key=lambda i: -len(lines[i]))
+    workers = max(1, min(workers, len(lines) // 4 or 1))
+    parts = [order[w::workers] for w in range(workers)]
+
+    def job(idx):
+        return ctx.run(mexe, "\n".join(lines[i] for i in idx) + "\n", timeout=900)
+
+    if workers == 1:
+        results = [job(parts[0])]
+    else:
+        from concurrent.futures import ThreadPoolExecutor
+        with ThreadPoolExecutor(max_workers=workers) as ex:
+            results = list(ex.map(job, parts))
     TIMES["model"] += ctx.elapsed() - t0
-    out = r.out.splitlines()
-    if r.rc != 0 or len(out) != len(lines) or any(o.startswith("ERR") for o in out):
-        bad = next((o for o in out if o.startswith("ERR")), "")
-        raise vlib.BuildError("extracted model driver failed: rc=%s lines=%d/%d %s %s" % (
-            r.rc, len(out), len(lines), bad, r.err[-300:]))
-    return out
+    outl = [None] * len(lines)
+    for idx, r in zip(parts, results):
+        out = r.out.splitlines()
+        if r.rc != 0 or len(out) != len(idx) or any(o.startswith("ERR") for o in out):
+            bad = next((o for o in out if o.startswith("ERR")), "")
+            raise vlib.BuildError("extracted model driver failed: rc=%s lines=%d/%d %s %s" % (
+                r.rc, len(out), len(idx), bad, r.err[-300:]))
+        for i, o in zip(idx, out):
+            outl[i] = o
+    return outl
 
 
 def model_matrix(line):
@@ -221,7 +240,31 @@ def regen_table(ctx):
     finally:
         lock.close()
     ctx.note("t_eig: %d selection sites, table %s" % (len(tab["branches"]), "rewritten" if changed else "unchanged"))
+    tab["_text"] = text
     return tab
+
+
+def table_still_ours(ctx, tab):
+    """coq/gen/EigSelect.v is shared with other checks that may regenerate it from ANOTHER tree while we build"""
+    if tab is None:
+        return True
+    try:
+        return open(os.path.join(ctx.verif, "coq", "gen", "EigSelect.v")).read() == tab["_text"]
+    except OSError:
+        return False
+
+
+def build_all(ctx):
+    """translator + proofs + extraction, repeated if the shared generated table was overwritten meanwhile"""
+    for attempt in range(4):
+        ctx._unshown = [u for u in ctx._unshown if not u.startswith("proof obligations")]
+        tab = regen_table(ctx)
+        coq = ctx.coq()
+        mexe = ctx.extract()
+        if table_still_ours(ctx, tab):
+            return tab, coq, mexe
+        ctx.note("coq/gen/EigSelect.v was rewritten by a concurrent run from another tree; rebuilding (attempt %d)" % (attempt + 1))
+    return tab, coq, mexe
 
 
 def site_index(tab, fn, largest):
@@ -264,7 +307,8 @@ def gen_e2e(rng, quick, count, nmax):
              "kpca_lin", "kpca_gauss", "kpca_poly", "isomap", "lattice"]
     for t in range(count):
         kind = kinds[t % len(kinds)]
-        n = rng.choice([nmax, (3 * nmax) // 5, nmax // 2]) if t % 17 == 5 else rng.choice([3, 4, 5, 6, 7, 8, 9, 10, 12, 16])
+        big = t % 17 == 5
+        n = rng.choice([nmax, (2 * nmax) // 3]) if big else rng.choice([3, 4, 5, 6, 7, 8, 9, 10, 12])
         n = max(3, min(n, nmax))
         c = {"gen": kind, "k": 0, "seed": rng.randrange(1, 10 ** 6), "euclid": False, "rank": None, "meth": "mds"}
         if kind in ("euclid_eq", "euclid_lt", "euclid_gt", "offset", "dupes", "lattice"):
@@ -334,6 +378,8 @@ def gen_e2e(rng, quick, count, nmax):
                 T = dist_table(P)
             d = min(r, n - 1)
             c.update(table=T, n=n, d=d, rank=r, euclid=True, meth="isomap", k=n - 1)
+        if big and c["d"] > 6 and c["gen"] != "simplex":
+            c["d"] = max(c["rank"] or 1, 1) if (c["rank"] or 99) <= 6 else 4
         # solver: randomized only when rank <= d is known
         solvers = ["dense"]
         if c["rank"] is not None and c["rank"] <= c["d"]:
@@ -889,14 +935,11 @@ def evaluate_all(ctx, exe, mexe, tab, cases, stats, shrink=True):
 def run(ctx):
     rng = ctx.rng
     quick = ctx.quick
-    tab = regen_table(ctx)
-    coq = ctx.coq()
-    t_coq = ctx.elapsed()
     exe = ctx.cpp("harness/c05.cpp", extra=["-O0", "-g0"])
     t_cpp = ctx.elapsed()
-    mexe = ctx.extract()
+    tab, coq, mexe = build_all(ctx)
     t_ext = ctx.elapsed()
-    ctx.note("wall: coq %.0fs, harness build %.0fs, extraction %.0fs" % (t_coq, t_cpp - t_coq, t_ext - t_cpp))
+    ctx.note("wall: harness build %.0fs, translator + coq + extraction %.0fs" % (t_cpp, t_ext - t_cpp))
     stats = new_stats()
     cases = []
     for name, c in ctx.corpus():
@@ -906,7 +949,7 @@ def run(ctx):
     cases += gen_exact(rng, 120 if quick else 1200)
     cases += gen_generic_matrix(rng, 30 if quick else 300)
     cases += gen_tri(rng, 12 if quick else 100)
-    cases += gen_e2e(rng, quick, 104 if quick else 1300, 40 if quick else 120)
+    cases += gen_e2e(rng, quick, 91 if quick else 1300, 24 if quick else 100)
     n = evaluate_all(ctx, exe, mexe, tab, cases, stats)
     ctx.note("wall: cases %.0fs (extracted model %.0fs, harness %.0fs)" % (ctx.elapsed() - t_ext, TIMES["model"], TIMES["impl"]))
     if tab is not None:
@@ -966,8 +1009,8 @@ def small_exhaustive():
 
 
 def replay(ctx, case):
-    tab = regen_table(ctx)
     exe = ctx.cpp("harness/c05.cpp", extra=["-O0", "-g0"])
+    tab = regen_table(ctx)
     mexe = ctx.extract()
     c = unslim(case)
     stats = new_stats()
